@@ -100,3 +100,52 @@ func H19_Null() {
 		}
 	}
 }
+
+// H19_Long: strings around the lengths where packed / word-sized tricks
+// change behaviour (7, 8, 9 bytes), arbitrary contents.
+func H19_Long() {
+	vrt.MapOrder(false)
+	p := newPlenc(cfgDef)
+	buf := make([]byte, 0, 32)
+	var got, want [4]string
+	for step := 0; step < 3; step++ {
+		n := []int{7, 8, 9}[vrt.Choice(idx("len", step), 3)]
+		s := vrt.String(idx("s", step), n)
+		plain := sPlainS{S: s}
+		enc, err := p.Marshal(buf[:0], &plain)
+		vrt.Assert("marshal ok", err == nil)
+		var oi sIntern
+		var op sPlainS
+		vrt.Assert("unmarshal interned ok", p.Unmarshal(enc, &oi) == nil)
+		vrt.Assert("unmarshal plain ok", p.Unmarshal(enc, &op) == nil)
+		vrt.Assert("interned field == plain field", oi.S == op.S)
+		vrt.Assert("decoded == encoded", oi.S == s)
+		got[step], want[step] = oi.S, s
+		for i := range enc {
+			enc[i] = vrt.U8("scribble")
+		}
+		for j := 0; j <= step; j++ {
+			vrt.Assert("strings returned earlier never change", got[j] == want[j])
+		}
+	}
+}
+
+// H19_NullReused: interned null.String decoded repeatedly into the SAME target.
+func H19_NullReused() {
+	vrt.MapOrder(false)
+	p := newPlenc(cfgDef)
+	var oi sNullIntern
+	var op sNullPlain
+	for step := 0; step < internSteps(); step++ {
+		var u null.String
+		if vrt.Choice(idx("valid", step), 2) == 1 {
+			u.Valid = true
+			u.String = vrt.String(idx("u", step), vrt.Choice(idx("u.len", step), 3))
+		}
+		enc, err := p.Marshal(nil, &sNullPlain{U: u})
+		vrt.Assert("marshal ok", err == nil)
+		vrt.Assert("unmarshal interned ok", p.Unmarshal(enc, &oi) == nil)
+		vrt.Assert("unmarshal plain ok", p.Unmarshal(enc, &op) == nil)
+		vrt.Assert("interned == plain into re-used targets", oi.U.Valid == op.U.Valid && oi.U.String == op.U.String)
+	}
+}
